@@ -41,6 +41,7 @@ type Profile struct {
 	BadRefPct  int // percentage of references to undefined rules
 	DupLabels  bool
 	NoStaleCtx bool // predicates/state blocks do not observe c.text / c.pos (avoid Q-STALE-CTX)
+	NoFFFDLit  bool // no literal contains U+FFFD (avoid Q-LIT-EOF)
 }
 
 var AllTmpls = func() []Tmpl {
@@ -128,6 +129,9 @@ func (g *gctx) genLit() *Node {
 		sb.WriteString(g.alphaRune())
 	}
 	n.Lit = sb.String()
+	if g.p.NoFFFDLit {
+		n.Lit = strings.ReplaceAll(n.Lit, "\uFFFD", "q")
+	}
 	n.IC = g.pct(g.p.IgnoreCase)
 	return n
 }
